@@ -150,6 +150,22 @@ CLAIMED["C03"] = (
     "DESIGN.md section 6 C03",
 )
 
+CLAIMED["C04"] = (
+    "SinglePhaseFlow and MassAndEnergyBalance on closed (homogeneous Neumann) unit squares with 0, 1 and 2 "
+    "crossing Cartesian fractures, compressible and incompressible fluid, are prepared concretely; the mass "
+    "and energy balance residuals are evaluated by the real model code (constitutive laws, upwinding, MPFA, "
+    "mortar projections, parser) on a symbolic state - pressures, temperatures and interface fluxes arbitrary, "
+    "not converged - and symbolic previous-time values. z3 decides that the sum of the residual over all cells "
+    "of all subdomains equals the rate of change of the accumulated quantity (fluid mass / total internal "
+    "energy evaluated through the same operators), i.e. all inter-cell and interface fluxes cancel, through "
+    "both the value path and the AdArray path.",
+    "Floats as exact reals (two-stage exact / 1e-9 tolerance); discretization matrices fixed at prepared values; "
+    "2x2 Cartesian grids; state within +-1 of the initial state; exp uninterpreted with range axioms; simplex "
+    "grids and 3 fractures are outside (gmsh / size).",
+    "symbolic execution of model residual evaluation on z3 terms + SMT",
+    "DESIGN.md section 6 C04",
+)
+
 NOT_APPLICABLE = {
     "C11": "MPFA local systems are inverted in LAPACK/numba kernels on data-dependent block structures; a symbolic inverse of the interaction-region blocks is beyond z3/cvc5 and with concrete matrices nothing quantified remains for a solver.",
     "C13": "MPSA: same obstacle as C11 with 2-3x larger local systems.",
